@@ -160,7 +160,19 @@ fn counting_case(ctx: &Ctx, rep: &mut Report, case: u64, g: &mut Sm64) {
     let jitter_us = *g.choose(&[0u64, 0, 300, 3000]);
     hook::proto_jitter(g.next_u64(), jitter_us);
     rep.count(&format!("injected_delay_max_us[{jitter_us}]"));
-    let r = guard(|| s.run_progress(n_collect, n_discard).map_err(|e| format!("{e}")));
+    // the call may come from inside a small rayon pool (fewer pool threads than chains)
+    let pool_threads = *g.choose(&[0usize, 0, 1, 2, 3]);
+    rep.count(&format!("called_inside_rayon_pool_of[{pool_threads}]"));
+    // chains of this workload report or finish within a few polling intervals: 80 idle polls = a stuck run
+    hook::proto_idle_limit(80);
+    let r = guard(|| {
+        if pool_threads == 0 {
+            s.run_progress(n_collect, n_discard).map_err(|e| format!("{e}"))
+        } else {
+            let pool = rayon::ThreadPoolBuilder::new().num_threads(pool_threads).build().unwrap();
+            pool.install(|| s.run_progress(n_collect, n_discard).map_err(|e| format!("{e}")))
+        }
+    });
     hook::proto_jitter(1, 0);
     let events = hook::proto_take();
     rep.eval();
@@ -270,7 +282,13 @@ fn mh_gibbs_case(ctx: &Ctx, rep: &mut Report, case: u64, g: &mut Sm64) {
                     let _ = b.run(warm, 1).unwrap();
                 }
                 let plain = a.run(n_collect, n_discard).unwrap();
-                let (prog, stats) = b.run_progress(n_collect, n_discard).map_err(|e| format!("{e}")).unwrap();
+                hook::proto_idle_limit(80);
+                let (prog, stats) = if seed % 5 < 2 {
+                    let pool = rayon::ThreadPoolBuilder::new().num_threads(1 + (seed % 2) as usize).build().unwrap();
+                    pool.install(|| b.run_progress(n_collect, n_discard).map_err(|e| format!("{e}")).unwrap())
+                } else {
+                    b.run_progress(n_collect, n_discard).map_err(|e| format!("{e}")).unwrap()
+                };
                 let want = RunStats::from(prog.view());
                 (arr_bits(&plain), arr_bits(&prog), stats, want)
             });
@@ -361,7 +379,14 @@ where
                 let _ = b.run(warm + 1, 3);
             }
             let plain = t3(&a.run(n_collect + 1, n_discard));
-            let (prog, stats) = b.run_progress(n_collect, n_discard).map_err(|e| format!("{e}")).unwrap();
+            hook::proto_idle_limit(80);
+            let (prog, stats) = if seed % 5 < 2 {
+                // called from inside a rayon pool with fewer threads than chains
+                let pool = rayon::ThreadPoolBuilder::new().num_threads(1 + (seed % 2) as usize).build().unwrap();
+                pool.install(|| b.run_progress(n_collect, n_discard).map_err(|e| format!("{e}")).unwrap())
+            } else {
+                b.run_progress(n_collect, n_discard).map_err(|e| format!("{e}")).unwrap()
+            };
             (plain, t3(&prog), stats)
         } else {
             let mut a = HMC::<T, B, DiagGauss>::new(target.clone(), inits.clone(), T::of(0.2), 3).set_seed(seed);
